@@ -519,6 +519,14 @@ impl<'a> Ctx<'a> {
         for _ in 0..n {
             v.push(self.atom_simple());
         }
+        // zero-width things keep the width fixed: sometimes the body starts with an anchor (a
+        // look-behind that pins the match to the start of the text or of a line) or with \K
+        if self.rng.chance(1, 6) {
+            v.insert(0, Node::Anchor(*self.rng.pick(&["^", "\\A", "\\b", "(?m:^)"])));
+        }
+        if self.cfg.allow_keepout && self.cfg.allow_keepout_in_look && self.rng.chance(1, 3) {
+            v.insert(0, Node::KeepOut);
+        }
         let base = if v.len() == 1 {
             v.pop().unwrap()
         } else {
@@ -1029,4 +1037,12 @@ pub const CORPUS: &[&str] = &[
     r"(?:)",
     r"\d{4}-\d{2}",
     r"[^01]+",
+    // anchored at the start through different routes: the first match is at 0, the following
+    // searches start later and must still see the text before them
+    r"^a|(?<=^a)b",
+    r"\Aab|(?<=\Aab)c+",
+    r"(?<=^a)|^",
+    r"(?<=^é)b|^é",
+    r"^|(?<=\bb)a|c(?!\1)(d)?",
+    r"(?<=\Ka)b|(?=a)",
 ];
